@@ -308,6 +308,144 @@ def check(d, name):
     return fails
 
 
+def _histories(d):
+    pt = d["pt"]
+    out = {("time", ""): [si(x, "sec") for x in pt.time]}
+    for e in pt.elements:
+        for v, ser in e.time_variables.items():
+            out[(e.name, v)] = [x if isinstance(x, (int, float)) else x.to(SI_OF[type(x).__name__]).value for x in ser]
+    return out
+
+
+SI_OF = {"AngularPosition": "rad", "AngularSpeed": "rad/s", "AngularAcceleration": "rad/s^2", "Torque": "Nm", "Current": "A",
+         "Force": "N", "Stress": "Pa", "Time": "sec"}
+
+
+def _diff(a, b, exact, what):
+    if a.keys() != b.keys():
+        return dict(relation=f"{what}: same recorded series", only_left=sorted(map(str, a.keys() - b.keys())), only_right=sorted(map(str, b.keys() - a.keys())))
+    for k in a:
+        if len(a[k]) != len(b[k]):
+            return dict(relation=f"{what}: same number of samples", series=k, left=len(a[k]), right=len(b[k]))
+        for i, (x, y) in enumerate(zip(a[k], b[k])):
+            if (x != y) if exact else (abs(x - y) > 1e-6 * max(abs(x), abs(y), 1e-3)):
+                return dict(relation=f"{what}: same histories", series=k, sample=i, left=x, right=y)
+    return None
+
+
+def check_c12(name, build):
+    """C12 on one scenario: run + continuation (same unit, other unit) against a single run; reset + repeat (same / new solver)"""
+    from gearpy.solver import Solver
+    from gearpy.units import TimeInterval
+    fails = []
+    d0 = build()
+    dt, T, kw = d0["schedule"][0]
+    if "stop_condition" in kw:
+        return fails
+    n = round(T.to("sec").value / dt.to("sec").value)
+    n1 = n // 2
+    init = (d0["last"].angular_position, d0["last"].angular_speed)
+    d0["solver"].run(time_discretization=dt, simulation_time=dt * n, **kw)
+    single = _histories(d0)
+    other = "ms" if dt.unit == "sec" else "sec"
+    for label, conv in (("continuation in the same unit", lambda q: q), (f"continuation in {other}", lambda q: q.to(other))):
+        d = build()
+        kwd = d["schedule"][0][2]            # this build's own controller (bound to its own powertrain)
+        d["solver"].run(time_discretization=dt, simulation_time=dt * n1, **kwd)
+        d["solver"].run(time_discretization=conv(dt), simulation_time=conv(dt * (n - n1)), **kwd)
+        f = _diff(single, _histories(d), False, f"run T1 then {label} vs one run of T1+T2")
+        if f:
+            fails.append(dict(property="C12", scenario=name, **f))
+    for label, mk in (("same solver", lambda: d0["solver"]), ("new solver", lambda: Solver(d0["pt"]))):
+        d0["pt"].reset()
+        d0["last"].angular_position, d0["last"].angular_speed = init
+        mk().run(time_discretization=dt, simulation_time=dt * n, **kw)
+        f = _diff(single, _histories(d0), True, f"reset, re-apply initial conditions, repeat ({label})")
+        if f:
+            fails.append(dict(property="C12", scenario=name, **f))
+    return fails
+
+
+def check_c18(d, name):
+    """C18 on a scenario that has been run: snapshots (recorded instants and between) and the exported CSV files against
+    the recorded histories, in non-default units"""
+    import csv
+    import os
+    import shutil
+    import tempfile
+    from gearpy.units import Time
+    fails = []
+    pt = d["pt"]
+    t = [si(x, "sec") for x in pt.time]
+    N = len(t)
+    UNIT = {"angular position": "deg", "angular speed": "rpm", "angular acceleration": "rad/s^2", "torque": "mNm", "driving torque": "Nm",
+            "load torque": "mNm", "tangential force": "mN", "bending stress": "Pa", "contact stress": "Pa", "electric current": "mA", "pwm": ""}
+    kw = dict(angular_position_unit="deg", angular_speed_unit="rpm", torque_unit="mNm", load_torque_unit="mNm", force_unit="mN", stress_unit="Pa",
+              current_unit="mA")
+    recorded = set()
+    for e in pt.elements:
+        recorded |= set(e.time_variables.keys())
+    targets = [(N // 3, 0.0), (N // 2, 0.5), (N - 2, 0.25), (N - 1, 0.0), (0, 0.0)]
+    selections = [None, ["angular speed", "torque", "tangential force", "bending stress"], ["pwm", "electric current", "contact stress"],
+                  ["angular position"]]
+    for sel in selections:
+        if sel is not None:
+            sel = [v for v in sel if v in recorded]
+            if not sel:
+                continue
+        for (k, fr) in targets:
+            k2 = min(k + 1, N - 1)
+            tt = t[k] + fr * (t[k2] - t[k])
+            try:
+                df = pt.snapshot(Time(tt, "sec"), variables=list(sel) if sel is not None else None, print_data=False, **kw)
+            except Exception as e:          # noqa: BLE001
+                fails.append(dict(property="C18", scenario=name, relation="snapshot raised", target_time=tt, variables=sel, error=repr(e)))
+                continue
+            want_cols = {(f"{v} ({UNIT[v]})" if UNIT[v] else v) for v in (sel if sel is not None else recorded)}
+            if set(df.columns) != want_cols:
+                fails.append(dict(property="C18", scenario=name, relation="snapshot columns = the selected variables", variables=sel,
+                                  got=sorted(df.columns), expected=sorted(want_cols)))
+                continue
+            for e in pt.elements:
+                for v in (sel if sel is not None else recorded):
+                    if v not in e.time_variables:
+                        continue
+                    ser = [x if isinstance(x, (int, float)) else x.to(UNIT[v]).value for x in e.time_variables[v]]
+                    w = (tt - t[k]) / (t[k2] - t[k]) if k2 != k else 0.0
+                    exp = ser[k] + w * (ser[k2] - ser[k])
+                    got = df.loc[e.name, f"{v} ({UNIT[v]})" if UNIT[v] else v]
+                    if got != got or abs(float(got) - exp) > 1e-7 * max(abs(exp), abs(ser[k]), abs(ser[k2]), 1e-9):
+                        fails.append(dict(property="C18", scenario=name, element=e.name, variable=v, target_time=tt, got=float(got), expected=exp,
+                                          relation="snapshot cell = linear interpolation of the neighbouring recorded samples in the requested unit"))
+                        if len(fails) > 5:
+                            return fails
+    folder = tempfile.mkdtemp(prefix="pycv_export_")
+    try:
+        pt.export_time_variables(folder_path=os.path.join(folder, "out"), time_unit="ms", **kw)
+        for e in pt.elements:
+            with open(os.path.join(folder, "out", e.name + ".csv")) as f:
+                rows = list(csv.reader(f))
+            head, body = rows[0], rows[1:]
+            if len(body) != N:
+                fails.append(dict(property="C18", scenario=name, element=e.name, relation="export: one row per recorded instant", rows=len(body), instants=N))
+                continue
+            want = ["time (ms)"] + [(f"{v} ({UNIT[v]})" if UNIT[v] else v) for v in e.time_variables.keys()]
+            if head != want:
+                fails.append(dict(property="C18", scenario=name, element=e.name, relation="export: time + every recorded variable", got=head, expected=want))
+                continue
+            for ci, v in enumerate(["time"] + list(e.time_variables.keys())):
+                ser = [x * 1000 for x in t] if v == "time" else [x if isinstance(x, (int, float)) else x.to(UNIT[v]).value for x in e.time_variables[v]]
+                bad = [i for i in range(N) if abs(float(body[i][ci]) - ser[i]) > 1e-9 * max(abs(ser[i]), 1e-9)]
+                if bad:
+                    fails.append(dict(property="C18", scenario=name, element=e.name, variable=v, row=bad[0], got=body[bad[0]][ci], expected=ser[bad[0]],
+                                      relation="export: cell = recorded sample in the requested unit"))
+    except Exception as e:          # noqa: BLE001
+        fails.append(dict(property="C18", scenario=name, relation="export raised", error=repr(e)))
+    finally:
+        shutil.rmtree(folder, ignore_errors=True)
+    return fails
+
+
 def run_corpus(props=None, max_failures=5):
     """-> list of failures over the whole corpus (optionally only the given properties)"""
     out = []
@@ -315,6 +453,10 @@ def run_corpus(props=None, max_failures=5):
         try:
             d = build()
             fs = check(d, name)
+            if props is not None and "C18" in props:
+                fs = fs + check_c18(d, name)
+            if props is not None and "C12" in props:
+                fs = fs + check_c12(name, build)
         except Exception as e:          # noqa: BLE001
             fs = [dict(property="*", relation="scenario raised", scenario=name, error=repr(e))]
         for f in fs:
